@@ -18,6 +18,9 @@ uint64_t sym_u64(const char* name);
 float sym_f32(const char* name);
 float sym_real(const char* name); // Real mode (C20): an arbitrary real number; natively the nearest float of the model value
 float sym_pi();
+// reference IEEE binary32 <-> binary16 conversions (engine: z3 fp.to_fp RNE; native: independent bit-level code)
+uint16_t sym_ref_f2h(float x);
+float sym_ref_h2f(uint16_t h);
 void sym_bytes(void* p, unsigned long n, const char* name);
 void sym_assume(bool c);
 void sym_assert(bool c, const char* id_colon_msg);
